@@ -343,7 +343,8 @@ def proof_stage(res: Result, module: str, theorems, extra_modules=()):
     cur = None
     text = p.stdout
     import re
-    for m in re.finditer(r"'([^']+)' (depends on axioms: \[([^\]]*)\]|does not depend on any axioms)",
+    # (a theorem name may itself end in primes: `'Rva.foo'' depends on ...`)
+    for m in re.finditer(r"(?m)^'(\S+?)' (depends on axioms: \[([^\]]*)\]|does not depend on any axioms)",
                          text):
         name = m.group(1)
         axs = [a.strip() for a in (m.group(3) or "").replace("\n", " ").split(",") if a.strip()]
